@@ -36,10 +36,16 @@ def gen_cases(seed, tier, n):
             c = tracegen.gen_sync_scenario(seed, i)
         elif i % 5 == 2:
             c = tracegen.gen_event_sync_scenario(seed, i)
+        elif i % 10 == 1:
+            # zero-duration host events (also in the instant where one operator ends and the next begins): the analysis drops them
+            # before it builds the call stacks, so they must not disturb the graph
+            c = tracegen.gen_case(seed, i, tracegen.PROFILES["cp_zero"])
         else:
             c = tracegen.gen_case(seed, i, tracegen.PROFILES[profs[i % len(profs)]])
         rng = random.Random(seed * 7919 + i)
         c["params"] = {"pseed": rng.randint(0, 10 ** 9), "zw": rng.random() < 0.3}
+        if i % 8 == 6:
+            fw.set_quarter_us(c)           # quarter-microsecond resolution (framework.resolution): times and weights are compared after scaling by 4
         out.append(c)
     return out
 
@@ -60,7 +66,7 @@ def run_impl(case, d):
     if "graph" in res:
         res["order"] = topo_order(res["graph"])
         try:
-            res["traversal"] = cp.dump_host_traversal(ta, res["rank"])
+            res["traversal"] = cp.dump_host_traversal(ta, res["rank"], g)
             res["queue"] = cp.queue_lengths(ta, res["rank"])
         except Exception as e:
             res["traversal_error"] = type(e).__name__ + ": " + str(e)[:200]
